@@ -30,6 +30,10 @@ extern int mpt_decode_command(MPT_STRUCT(decode_state) *dec, const struct iovec 
 	
 	if (!source) {
 		static const MPT_STRUCT(decode_state) _def = MPT_DECODE_INIT;
+		/* sufficient message size for remaining data: text and header */
+		if (sourcelen) {
+			return dec->data.len + sourcelen + sizeof(MPT_STRUCT(msgtype));
+		}
 		*dec = _def;
 		return 0;
 	}
